@@ -319,6 +319,42 @@ FAMILY = {
 }
 ENC_WORDS = ("Encoder", "CompressorWriter")
 DEC_WORDS = ("Decoder", "Decompressor")
+# what a decoder does after the first frame/member of its input (library documentation; part of the external model, DESIGN §3.6):
+#   single = stops there, leaving the rest unread;  multi = decodes every following frame/member too (and fails on trailing garbage)
+MEMBERS = (
+    ("flate2::gz::read::MultiGzDecoder", "multi"), ("flate2::gz::bufread::MultiGzDecoder", "multi"),
+    ("flate2::gz::read::GzDecoder", "single"), ("flate2::gz::bufread::GzDecoder", "single"),
+    ("brotli_decompressor::reader::Decompressor", "single"), ("brotli::Decompressor", "single"),
+    ("zstd::stream::read::Decoder", "multi"),                                  # unless .single_frame()
+    ("async_compression::futures::bufread::GzipDecoder", "single"),          # unless .multiple_members(true)
+    ("async_compression::futures::bufread::BrotliDecoder", "single"),
+    ("async_compression::futures::bufread::ZstdDecoder", "single"),
+)
+
+
+def member_semantics(p, ctors):
+    """'single' | 'multi' | None (decoder not in the table) for the decoder built on path p"""
+    sem = None
+    for c in ctors:
+        for pre, m in MEMBERS:
+            if c[1].startswith(pre):
+                sem = m
+    if sem is None:
+        return None
+    for e in p.events:
+        if e.kind != "call":
+            continue
+        if e.d["fn"].endswith("::single_frame"):
+            sem = "single"
+        if e.d["fn"].endswith("::multiple_members") and len(e.d["args"]) == 2:
+            a = unmut(e.d["args"][1])
+            if a == ("lit", "bool", True):
+                sem = "multi"
+            elif a == ("lit", "bool", False):
+                sem = "single"
+            else:
+                sem = None
+    return sem
 
 
 def r_factory(ctx):
@@ -328,6 +364,7 @@ def r_factory(ctx):
     obs.append(Ob("R-FACTORY", "<crate>", "number of codec factories", len(facs) == want, "found %d codec factories (expected %d)" % (len(facs), want)))
     comp = ctx.facts.adts.get("header::compression::Compression")
     variants = [v["name"] for v in comp["variants"]] if comp else []
+    members = {}
     for f in facs:
         fn = f["path"]
         fa = ctx.fa(f)
@@ -368,6 +405,16 @@ def r_factory(ctx):
                     ok_dir = bool(main) and all(any(w in c[1] for w in (ENC_WORDS if is_enc else DEC_WORDS)) for c in main)
                     obs.append(Ob("R-FACTORY", fn, "%s arm builds a %s of the %s family around the given stream" % (arm, "compressor" if is_enc else "decompressor", arm),
                                   ok_fam and ok_dir and wraps_param, "constructs %s" % ", ".join(c[1] for c in ctors)[:160], rel(f["loc"])))
+                    if not is_enc:
+                        sem = member_semantics(p, main)
+                        members.setdefault(arm, {})[fn] = sem
+                        obs.append(Ob("R-FACTORY", fn, "%s decoder has known frame/member semantics" % arm, sem is not None,
+                                      "%s: %s" % (", ".join(c[1].split("<")[0] for c in main)[:120], sem or "not in the member-semantics table"), rel(f["loc"])))
+    # all decoders of one variant (sync and async) treat a section holding more than one frame/member alike
+    for arm, per in sorted(members.items()):
+        kinds = set(per.values())
+        obs.append(Ob("R-FACTORY", "<crate>", "%s: every decoder factory agrees on multi-frame input" % arm, len(kinds) == 1 and None not in kinds,
+                      "; ".join("%s: %s" % (k.rpartition("::")[2], v) for k, v in sorted(per.items()))))
     # who may construct codecs: only the factories
     facn = set(f["path"] for f in facs)
     for f in ctx.user_fns():
